@@ -97,6 +97,13 @@ class CaseAPI:
     def prove(self, clause, f, **info):
         self.ctx.prove(f"{self.case_id}:{clause}", f, info)
 
+    def prove_identity(self, clause, lhs, rhs, assumptions=None, **info):
+        """lhs == rhs between real terms; if the SMT solver cannot close it, the CAS back end
+        (sympy, see engine/cas.py) is asked; `assumptions`: {symbol name: {positive: True, range: (a, b)}}"""
+        info = dict(info)
+        info["_cas"] = (lhs, rhs, assumptions or {})
+        self.ctx.prove(f"{self.case_id}:{clause}", lhs == rhs, info)
+
     def instantiate_facts(self, index_tuples):
         """instantiate the universally valid facts recorded by any()/all() reductions at the given index tuples"""
         for natoms, fact in self.ctx.ghost.get("forall_facts", []):
@@ -265,7 +272,7 @@ def cvc5_check(solver, timeout_ms):
 def make_interp(index=None):
     index = index or RepoIndex()
     optable = dict(optable_core.T)
-    for modname in ("engine.optable_torch",):
+    for modname in ("engine.optable_torch", "engine.optable_nn"):
         try:
             mod = importlib.import_module(modname)
             optable.update(mod.T)
@@ -329,6 +336,16 @@ def run_case(cd: CaseDef, params, case_id):
             for ob in obs:
                 n_paths += 1
                 st, md, dt, backend = solve_vc(ob.pc, ob.formula, cd.solver_timeout, symbols)
+                if st != "unsat" and ob.info.get("_cas") is not None:
+                    from . import cas
+                    lhs, rhs, asm = ob.info["_cas"]
+                    tc = time.time()
+                    ok, why = cas.prove_identity(lhs, rhs, asm)
+                    dt += time.time() - tc
+                    if ok:
+                        st, md, backend = "unsat", None, "sympy"
+                    else:
+                        ob.info["cas_detail"] = why
                 secs += dt
                 be.add(backend)
                 if smt_sample is None:
@@ -340,7 +357,7 @@ def run_case(cd: CaseDef, params, case_id):
                 if st == "unknown" and st_all == "unsat":
                     st_all = "unknown"
             out["obligations"][name] = {
-                "status": st_all, "paths": n_paths, "model": model, "info": _jsonable(info), "solver_s": round(secs, 4),
+                "status": st_all, "paths": n_paths, "model": model, "info": _jsonable({k: v for k, v in (info or {}).items() if not k.startswith("_")}), "solver_s": round(secs, 4),
                 "backend": "+".join(sorted(be)), "vc": smt_sample,
             }
             out["solver_s"] += secs
@@ -420,7 +437,13 @@ def run_cases_parallel(jobs, workers=16, log=None):
                 p.join(5)
                 done.append(i)
             elif not p.is_alive():
-                results[i] = {"case": cid, "prop": cd.prop, "crash": f"child exited with code {p.exitcode}", "obligations": {}}
+                if pr.poll(0.5):  # the result may have been sent between the two checks
+                    try:
+                        results[i] = pr.recv()
+                    except EOFError:
+                        results[i] = {"case": cid, "prop": cd.prop, "crash": "child died without a result", "obligations": {}}
+                else:
+                    results[i] = {"case": cid, "prop": cd.prop, "crash": f"child exited with code {p.exitcode} without a result", "obligations": {}}
                 done.append(i)
             elif time.time() - t0 > cd.timeout:
                 p.kill()
